@@ -4,6 +4,7 @@ import UpfVerif.Driver.FlowDesc
 import UpfVerif.Driver.Drv
 import UpfVerif.Driver.Ctl
 import UpfVerif.Driver.CtlProps
+import UpfVerif.Driver.Perio
 open UpfVerif UpfVerif.Driver
 
 /-- stateless evaluators, by function name -/
@@ -33,6 +34,7 @@ structure Counters where
   ctl : Ctl.DrvState := {}
   tbl : Ctl.TblState := {}
   ps : CtlProps.PState := {}
+  perio : PerioD.DState := {}
   lines : Nat := 0
   checked : Nat := 0
   diffs : Nat := 0
@@ -54,6 +56,7 @@ partial def loop (h : IO.FS.Stream) (c : Counters) : IO Counters := do
     let res := String.intercalate " " ((rest.dropWhile (· ≠ "=")).drop 1)
     let r : Option (Counters × Verdict) :=
       if fn.startsWith "tbl." then (Ctl.evalTbl c.tbl fn args res).map fun (t, v) => ({ c with tbl := t }, v)
+      else if fn.startsWith "perio." then (PerioD.eval c.perio fn args res).map fun (t, v) => ({ c with perio := t }, v)
       else (evalT fn args res).map fun v => (c, v)
     match r with
     | none =>
